@@ -99,8 +99,8 @@ type Ineq struct {
 	Why string
 }
 
-func GE(a, b Term, why string) Ineq { return Ineq{a.Sub(b), why} }             // a ≥ b
-func LE(a, b Term, why string) Ineq { return Ineq{b.Sub(a), why} }             // a ≤ b
+func GE(a, b Term, why string) Ineq { return Ineq{a.Sub(b), why} }              // a ≥ b
+func LE(a, b Term, why string) Ineq { return Ineq{b.Sub(a), why} }              // a ≤ b
 func GT(a, b Term, why string) Ineq { return Ineq{a.Sub(b).AddConst(-1), why} } // a > b  (integers)
 func LT(a, b Term, why string) Ineq { return Ineq{b.Sub(a).AddConst(-1), why} } // a < b
 
